@@ -190,7 +190,7 @@ package fptower
 //@ cut after call Inverse #1
 //@ + ghost e0 = callarg0.A0
 //@ + ghost e1 = callarg0.A1
-//@ ensures[exp1] cx0 == 0 && cx1 == 1 && 2*k1 + 1 == qof(fp) 
+//@ ensures[exp1] cx0 == 0 && cx1 == 1 && 2*k1 + 1 == qof(fp)
 //@ ensures[exp2] bx0 == old(x.A0) && bx1 == old(x.A1) && 4*k2 + 1 == qof(fp)
 //@ ensures[norm] n == qnorm((-5), svec(2, 0, b0, 1, b1)) && one == 1
 //@ ensures[sqrt] hasroot(sa) ==> s == sqrt(sa)
